@@ -3,11 +3,11 @@
 Require Extraction.
 Require Import ExtrOcamlBasic.
 From RxModel Require Import Derived Ops2 Subject.
-From RxSpec Require Import DerivedSpec Ops2Spec SubjectSpec.
+From RxSpec Require Import DerivedSpec Ops2Spec SubjectSpec BehaviorSpec.
 Extraction Language OCaml.
 Extraction "model.ml"
   apply_fn apply_fn2 pred_of opt_of
   run_src run_hot run_cold expand_all src_script slot
   uchain_spec src_spec wf
   run_op2 spec_op2 first_side
-  srun subj0 arun asub0 size_ok brun bsubj0.
+  srun subj0 arun asub0 size_ok brun bsubj0 abrun sops_of.
